@@ -565,8 +565,14 @@ func (dec *Decoder) Literal(ptr *string) bool {
 	}
 	if dec.CheckBufferedLiteralFunc != nil {
 		if err := dec.CheckBufferedLiteralFunc(lit.Size(), nonSync); err != nil {
-			lit.cancel()
-			return false
+			if nonSync {
+				// The peer sends the data without waiting for our go-ahead:
+				// skip it so that it isn't parsed as something else
+				io.Copy(io.Discard, lit)
+			}
+			// Otherwise the peer won't send the data: leave the literal open so
+			// that nothing more is decoded
+			return dec.returnErr(err)
 		}
 	}
 	var sb strings.Builder
